@@ -153,7 +153,7 @@ func unboundedBySyntax(src string) bool {
 // stepBudget computes the logical work budget for a case.
 func stepBudget(src string, maxColl int) int64 {
 	toks := ref.Tokens(src, ref.DefaultDelims)
-	T := int64(len(toks)) + int64(len(src)/64)
+	T := int64(len(toks)) + int64(len(src)/8) // work proportional to the length of the source (a when list of 100000 values) is in proportion
 	d := 0
 	L := int64(maxColl)
 	for _, t := range toks {
@@ -175,6 +175,11 @@ func stepBudget(src string, maxColl int) int64 {
 		if b > 2e9 {
 			return 0 // no budget: only the CPU watchdog applies
 		}
+	}
+	if strings.Contains(src, "include") || strings.Contains(src, "xfile") || strings.Contains(src, "xbfile") || strings.Contains(src, "xcard") {
+		// an included file is scanned, compiled and rendered at every level it is reached at (up to a hundred): the files
+		// next to the templates total about 300 KB
+		b += 101 * 64 * (300_000 / 8)
 	}
 	return b + 10000
 }
@@ -231,6 +236,11 @@ func runC01(c *core.Ctx) {
 		os.WriteFile(filepath.Join(dir, "a.html"), []byte("[a.html {{ x }} {{ xlocal }}{% if t %} {{ s | upcase }}{% endif %}]"), 0o644)
 		// files that include themselves, directly and through each other
 		os.WriteFile(filepath.Join(dir, "self.html"), []byte("s{% include 'self.html' %}e"), 0o644)
+		// files that include themselves from deep inside nested blocks: the two depths multiply
+		for _, n := range []int{900, 10_000} {
+			name := map[int]string{900: "deepself900.html", 10_000: "deepself.html"}[n]
+			os.WriteFile(filepath.Join(dir, name), []byte(strings.Repeat("{% if true %}", n)+"{% include '"+name+"' %}"+strings.Repeat("{% endif %}", n)), 0o644)
+		}
 		os.WriteFile(filepath.Join(dir, "p.html"), []byte("{% for i in (1..2) %}{% include 'q.html' %}{% endfor %}"), 0o644)
 		os.WriteFile(filepath.Join(dir, "q.html"), []byte("{% if t %}{% include 'p.html' %}{% endif %}{% xfile p.html %}"), 0o644)
 		defer os.RemoveAll(dir)
@@ -470,6 +480,11 @@ func (x *c01) hostile() {
 	}
 	inject = append(inject, strings.Repeat("{%for i in (1..1)%}{%xwrap a%}{%capture c%}", 40_000)+"x"+strings.Repeat("{%endcapture%}{%endxwrap%}{%endfor%}", 40_000),
 		"{{ a"+strings.Repeat(".a", 2_000_000)+" }}", "{% if 1"+strings.Repeat(" and 1", 1_000_000)+" %}y{% endif %}", "{{ a"+strings.Repeat("[0]", 1_000_000)+" }}")
+	// value lists of a hundred thousand entries (parsing them once took memory quadratic in their length), forty thousand
+	// unterminated raw tags (each once made the scanner search the rest of the source), 24 MB of chained properties
+	inject = append(inject, "{% case 1 %}{% when 2"+strings.Repeat(",1", 100_000)+" %}x{% endcase %}", "{% for i in (1..3) %}{% cycle 'a'"+strings.Repeat(",'b'", 100_000)+" %}{% endfor %}",
+		strings.Repeat("{% raw %}x", 40_000), strings.Repeat("{% comment %}{% raw %}", 20_000), "{{ a"+strings.Repeat(".a", 12_000_000)+" }}", "{% if 1"+strings.Repeat(" or 1", 4_000_000)+" %}y{% endif %}",
+		"{% include 'deepself.html' %}", "{% include 'deepself900.html' %}")
 	env := hostileEnv
 	// frozen regression inputs: every source that ever produced a genuine violation (or that the development-time
 	// fuzzer found interesting) stays in /verif/corpus/C01 and is replayed first
